@@ -691,6 +691,7 @@ func Prop() *core.Prop {
 		ID:    "C05",
 		Level: core.Exploration,
 		Race:  true,
+		Units: "calls_ok",
 		Rule:  "each case is one served session (c2s or s2s) with 2-8 sender goroutines issuing PRNG-chosen calls over all 21 transmit entry points and argument forms (token slices, decoder-backed readers with explicit xmlns attributes, struct-tag values, xml.Marshaler, xmlstream.Marshaler, WriterTo, stanza values; with/without id, from, namespace; nested stanza-named children; payloads up to 256 KiB) while the peer injects IQs whose handler replies through EncodeToken/Encode/EncodeElement or not at all; every element carries a unique marker. Offline oracle: independent re-parse of the peer-side bytes, one element per successful call, tree equality up to the completions the property allows. Non-trivial = a call that returned nil; distinct = (entry point, argument form, size class, stanza?, s2s?) plus distinct wire-order signatures (sequence of actor ids).",
 		Assumptions: []string{
 			"a child element with an empty namespace inside a namespaced parent denotes the parent's namespace (encoding/xml's Encoder cannot write xmlns=\"\")",
